@@ -88,6 +88,7 @@ class H3Shim:
         self.candidates = ()
         self.pick = 0
         self.calls = 0
+        self.last = None
 
     def __getattr__(self, name):
         return getattr(_h3, name)
@@ -96,6 +97,7 @@ class H3Shim:
         if not (boot.is_symbolic(lat) or boot.is_symbolic(lon)):
             return _h3.geo_to_h3(lat, lon, res)
         self.calls += 1
+        self.last = (lat, lon)
         p = self.pick
         for i in range(len(self.candidates)):
             if p == i:
@@ -216,6 +218,47 @@ class SymTod:
 
     def __hash__(self):
         return 0
+
+
+class SymDelta:
+    """stand-in for datetime.timedelta carrying (symbolic) seconds"""
+
+    __slots__ = ("sec",)
+
+    def __init__(self, sec):
+        self.sec = sec
+
+    def total_seconds(self):
+        return self.sec
+
+    def __str__(self):
+        return "<symdelta>"
+
+    __repr__ = __str__
+
+
+def install_time_diff_shim():
+    """
+    report builders call time_helpers.time_diff on datetime.time values; with SymTime clocks
+    those are SymTod.  Model: (end - start) mod 86400 seconds, which is what time_diff computes
+    for times of day (validated against the real function by the C19 wait-time harness).
+    """
+    if not boot.SYMBOLIC:
+        return
+    from nrel.hive.reporting import vehicle_event_ops
+    from nrel.hive.util import time_helpers
+
+    real = time_helpers.time_diff
+
+    def _sec(x):
+        return x.s if isinstance(x, SymTod) else x.hour * 3600 + x.minute * 60 + x.second
+
+    def time_diff(start, end):
+        if isinstance(start, SymTod) or isinstance(end, SymTod):
+            return SymDelta((_sec(end) - _sec(start)) % 86400)
+        return real(start, end)
+
+    vehicle_event_ops.time_diff = time_diff
 
 
 def mk_time(t):
